@@ -86,6 +86,27 @@ def run(ctx):
         if not ok and not cli_bad:
             cli_bad = {'depth': d, 'batch': b, 'output_state': label, 'exit': p_.returncode, 'bytes_on_disk': len(got), 'bytes_expected': len(want),
                        'first_difference': first_diff(want, got)}
+    # the command reads nothing but its flags: an environment prepared for the other commands
+    # (MTB_MODE is what `start`/`prove` read their mode from) must not change the model
+    for envmode in ('insertion', 'deletion'):
+        env = dict(os.environ, MTB_MODE=envmode)
+        p_ = common.run([cli, 'extract-circuit', '--output', outp, '--tree-depth', '30', '--batch-size', '4'], env=dict(common.GOENV, MTB_MODE=envmode))
+        got = open(outp).read() if os.path.exists(outp) else ''
+        programs += 1
+        ok = p_.returncode == 0 and got == committed
+        ctx.oblige(f'`gnark-mbu extract-circuit` (30,4) with MTB_MODE={envmode} in the environment = the committed model', ok,
+                   '' if ok else f'exit {p_.returncode}, {len(got)} bytes on disk, {len(committed)} expected')
+        if not ok and not cli_bad:
+            cli_bad = {'depth': 30, 'batch': 4, 'output_state': f'fresh path, MTB_MODE={envmode} set in the environment', 'exit': p_.returncode,
+                       'bytes_on_disk': len(got), 'bytes_expected': len(committed), 'first_difference': first_diff(committed, got)}
+    if os.path.exists('/dev/full'):
+        p_ = common.run([cli, 'extract-circuit', '--output', '/dev/full', '--tree-depth', '3', '--batch-size', '1'])
+        programs += 1
+        ok = p_.returncode != 0
+        ctx.oblige('`gnark-mbu extract-circuit` onto a full device reports the failure', ok, '' if ok else 'exit 0')
+        if not ok and not cli_bad:
+            cli_bad = {'depth': 3, 'batch': 1, 'output_state': '/dev/full (nothing can be written)', 'exit': 0, 'bytes_on_disk': 0, 'bytes_expected': 0,
+                       'first_difference': {'line': 0, 'committed': 'a non-zero exit status', 'fresh': 'exit 0'}}
     # an extraction the library refuses (xtool extract prints `error …`: deletion circuits stop at depth 31) must
     # be reported by the command and must not replace an existing model
     for d, b in ((32, 1), (40, 2)):
